@@ -93,6 +93,33 @@ impl Space {
     fn single_size(&self) -> u64 {
         (self.pos.len() * self.fil.len()) as u64
     }
+    fn triple_size(&self) -> u64 {
+        (self.pos.len() as u64).pow(3) * self.fil.len() as u64
+    }
+    /// thorough: three positions nested
+    fn run_triple(&self, idx: u64, acc: &mut Acc) {
+        let np = self.pos.len() as u64;
+        let d = unrank(idx, &[np, np, np, self.fil.len() as u64]);
+        let (p1, p2, p3) = (&self.pos[d[0] as usize], &self.pos[d[1] as usize], &self.pos[d[2] as usize]);
+        let f = &self.fil[d[3] as usize];
+        // f-strings cannot hold quotes or braces of their own kind: keep them innermost-free
+        if [p1, p2].iter().any(|p| p.1.starts_with("f'")) {
+            return;
+        }
+        if p3.1.starts_with("f'") && f.0.contains('\'') {
+            return;
+        }
+        let s3 = p3.1.replace('$', f.0);
+        let s2 = p2.1.replace('$', &format!("({})", s3));
+        let src = p1.1.replace('$', &format!("({})", s2));
+        let mut free: BTreeSet<String> = f.1.iter().map(|x| x.to_string()).collect();
+        let mut idents = Self::idents_of(p1.2, f);
+        for p in [p1, p2, p3] {
+            free.extend(p.2.iter().filter(|n| known_reader(n)).map(|x| x.to_string()));
+            idents.extend(p.2.iter().map(|x| x.to_string()));
+        }
+        self.check(acc, &format!("[{}] inside [{}] inside [{}]", p3.0, p2.0, p1.0), &src, &free, &idents);
+    }
     fn pair_size(&self) -> u64 {
         (self.pos.len() * self.pos.len() * self.fil.len()) as u64
     }
@@ -239,6 +266,7 @@ impl Space {
 pub fn replay_families(_t: Tier) -> Vec<Family<'static>> {
     let sp: &'static Space = Box::leak(Box::new(Space::new()));
     vec![
+        Family::new("nested-3-positions", sp.triple_size(), move |i, a| sp.run_triple(i, a)),
         Family::new("positions", sp.single_size(), move |i, a| sp.run_single(i, a)),
         Family::new("nested-positions", sp.pair_size(), move |i, a| sp.run_pair(i, a)),
     ]
@@ -248,12 +276,15 @@ pub fn run(t: Tier) -> i32 {
     let mut rep = Report::new(ID, t, "exploration");
     let sp = Space::new();
     rep.rule = format!(
-        "positions: {} syntactic positions (operands of every operator class, call arguments and receivers, type constructor and user function arguments, macro ranges, bodies, nested bodies, predicates, reduce seed/step, f-string segments, index expressions, indexed objects, map keys and values, list elements, match scrutinees, patterns and arms, ternary conditions and branches incl. untaken ones under a constant condition, has/coalesce arguments, member chain roots, parentheses) x {} fillers (one variable, two variables, a variable also used as a loop variable elsewhere, a variable with a field access); nested-positions: all ordered pairs of positions x fillers. The generator knows the free variables it placed and every identifier in the text: Free(E) must be contained in params(E), params(E) in Idents(E); binding every reported name must not leave a free variable unbound; filter_from_bindings must remove exactly the names bound as variable (every subset of up to 2 free variables), function or macro (the default tables). Non-trivial = every grammatical program; distinct by source",
+        "positions: {} syntactic positions (operands of every operator class, call arguments and receivers, type constructor and user function arguments, macro ranges, bodies, nested bodies, predicates, reduce seed/step, f-string segments, index expressions, indexed objects, map keys and values, list elements, match scrutinees, patterns and arms, ternary conditions and branches incl. untaken ones under a constant condition, has/coalesce arguments, member chain roots, parentheses) x {} fillers (one variable, two variables, a variable also used as a loop variable elsewhere, a variable with a field access); nested-positions: all ordered pairs of positions x fillers (thorough: also all ordered triples). The generator knows the free variables it placed and every identifier in the text: Free(E) must be contained in params(E), params(E) in Idents(E); binding every reported name must not leave a free variable unbound; filter_from_bindings must remove exactly the names bound as variable (every subset of up to 2 free variables), function or macro (the default tables). Non-trivial = every grammatical program; distinct by source",
         sp.pos.len(),
         sp.fil.len()
     );
     rep.run_family(Family::new("positions", sp.single_size(), |i, a| sp.run_single(i, a)));
     rep.run_family(Family::new("nested-positions", sp.pair_size(), |i, a| sp.run_pair(i, a)));
+    if t == Tier::Thorough {
+        rep.run_family(Family::new("nested-3-positions", sp.triple_size(), |i, a| sp.run_triple(i, a)));
+    }
     rep.assumptions = vec![
         "loop variables, function names and field names may be reported (they occur in the source); only names that do not occur at all are excluded".into(),
     ];
